@@ -57,6 +57,24 @@ func scenarioC08(rc *RunCtx) *Violation {
 	if o.Inject {
 		p.Extra["src/inject.js"] = "export let injected = 'INJ';\nconsole.log('inject');\n"
 	}
+	// profile: several entry points linked on their own goroutines (no splitting) that all
+	// write to the shared mangle cache in entry-point order
+	if g.n(5) == 0 {
+		o.Bundle, o.Splitting, o.Mangle, o.MangleCache = true, false, true, true
+		for i := 1; i < len(p.Mods) && len(p.Entries) < 4; i++ {
+			if isJS(p.Mods[i].Kind) && !entryOf(p, i) {
+				p.Entries = append(p.Entries, i)
+			}
+		}
+		for _, m := range p.Mods {
+			if g.n(3) != 0 {
+				m.Feat |= FeatMangle
+			} else {
+				m.Feat &^= FeatMangle
+			}
+		}
+		rc.Probe("profile_multi_entry_mangle_cache")
+	}
 	kind := perturb(g, p, o)
 	// a second, unrelated project for sibling builds in the same process
 	p2 := GenProject(g, "/q")
